@@ -312,6 +312,65 @@ func addHTTP(m map[string]Intrinsic) {
 	}
 
 	// --- url ---
+	// what a URL looks like on the wire: computed natively when its parts are concrete
+	concreteURL := func(vm *VM, u PtrV) (*url.URL, bool) {
+		out := &url.URL{}
+		for _, f := range []struct {
+			name string
+			dst  *string
+		}{{"Scheme", &out.Scheme}, {"Host", &out.Host}, {"Path", &out.Path}, {"RawPath", &out.RawPath}, {"RawQuery", &out.RawQuery}, {"Fragment", &out.Fragment}} {
+			sv, ok := vm.getF(u, f.name).(StrV)
+			if !ok || sv.Sym || sv.Opaque() {
+				return nil, false
+			}
+			*f.dst = sv.C
+		}
+		return out, true
+	}
+	m["(*net/url.URL).RequestURI"] = func(vm *VM, fn *ssa.Function, args []Value) Value {
+		u := args[0].(PtrV)
+		if cu, ok := concreteURL(vm, u); ok {
+			return mkStr(cu.RequestURI())
+		}
+		// symbolic parts: the path is taken to need no escaping
+		s := vm.getF(u, "Path").(StrV)
+		if q := vm.getF(u, "RawQuery").(StrV); q.Len() > 0 {
+			s = strConcat(strConcat(s, mkStr("?")), q)
+		}
+		vm.note("URL.RequestURI on symbolic parts: path assumed to need no escaping")
+		return s
+	}
+	m["(*net/url.URL).EscapedPath"] = func(vm *VM, fn *ssa.Function, args []Value) Value {
+		u := args[0].(PtrV)
+		if cu, ok := concreteURL(vm, u); ok {
+			return mkStr(cu.EscapedPath())
+		}
+		if v, ok := vm.cfg.Params["exactescape"]; ok && v == 0 {
+			// bound control: beyond the lengths at which the real escaping code is interpreted
+			// (one fork per byte), the path is taken to consist of bytes that need no escaping
+			vm.note("URL.EscapedPath on symbolic parts: path assumed to need no escaping (exactescape=0)")
+			return vm.getF(u, "Path").(StrV)
+		}
+		return vm.callBody(fn, args) // symbolic parts: the real escaping code is interpreted
+	}
+	m["net/url.ParseRequestURI"] = func(vm *VM, fn *ssa.Function, args []Value) Value {
+		raw := args[0].(StrV)
+		if raw.Sym || raw.Opaque() {
+			panic(vm.fail("url.ParseRequestURI on symbolic text"))
+		}
+		pu, err := url.ParseRequestURI(raw.C)
+		if err != nil {
+			return TupleV{PtrV{}, vm.newErrorStr("parse " + raw.C + ": " + err.Error())}
+		}
+		u := vm.newStruct(vm.typeByName("net/url", "URL"), "url.URL")
+		vm.setF(u, "Scheme", mkStr(pu.Scheme))
+		vm.setF(u, "Host", mkStr(pu.Host))
+		vm.setF(u, "Path", mkStr(pu.Path))
+		vm.setF(u, "RawPath", mkStr(pu.RawPath))
+		vm.setF(u, "RawQuery", mkStr(pu.RawQuery))
+		vm.setF(u, "Fragment", mkStr(pu.Fragment))
+		return TupleV{u, IfaceV{}}
+	}
 	m["net/url.Parse"] = func(vm *VM, fn *ssa.Function, args []Value) Value {
 		raw := args[0].(StrV)
 		ut := vm.typeByName("net/url", "URL")
@@ -324,6 +383,7 @@ func addHTTP(m map[string]Intrinsic) {
 			vm.setF(u, "Scheme", mkStr(pu.Scheme))
 			vm.setF(u, "Host", mkStr(pu.Host))
 			vm.setF(u, "Path", mkStr(pu.Path))
+			vm.setF(u, "RawPath", mkStr(pu.RawPath))
 			vm.setF(u, "RawQuery", mkStr(pu.RawQuery))
 			vm.setF(u, "Fragment", mkStr(pu.Fragment))
 			return TupleV{u, IfaceV{}}
